@@ -7,33 +7,42 @@ open Lean JrsVerif.J JrsVerif.Format
 
 def cps (a : Array Json) : List Char := (nats a).map Char.ofNat
 
-def natStr? (j : Json) (k : String) : Option Nat := do (← str? j k).toNat?
+/-- 16 hex digits → the bit pattern -/
+def hexNat? (s : String) : Option Nat :=
+  s.toList.foldlM (fun a c =>
+    if '0' ≤ c ∧ c ≤ '9' then some (a * 16 + (c.toNat - 48))
+    else if 'a' ≤ c ∧ c ≤ 'f' then some (a * 16 + (c.toNat - 87))
+    else none) 0
 
-def parseDigs (a : Array Json) : Option (List (Nat × FDig)) :=
+/-- `[[precision, "text"], …]`: what Rust's float formatting returned (computed by the harness with
+    the very `format!` calls of format.rs) -/
+def parseTexts (a : Array Json) : Option (List (Nat × List Char)) :=
   a.toList.mapM (fun e => do
     match e with
-    | .arr #[p, w, f] =>
+    | .arr #[p, t] =>
       let p ← p.getNat?.toOption
-      let w ← (← w.getStr?.toOption).toNat?
-      let f ← (← f.getStr?.toOption).toNat?
-      pure (p, ({ whole := w, frac := f } : FDig))
+      let t ← t.getStr?.toOption
+      pure (p, t.toList)
     | _ => none)
 
-partial def parseVal (j : Json) : Option Val := do
+/-- `missing` stands for a formatter answer the harness did not supply: the model is run with two
+    different stand-ins, and a result that depends on the stand-in used a missing answer -/
+partial def parseVal (missing : Char) (j : Json) : Option Val := do
   match ← str? j "k" with
   | "num" =>
-    let n : Num := {
-      neg := ← bool? j "neg", whole := ← natStr? j "whole", fracNZ := ← bool? j "frac",
-      exp := (int? j "exp").getD 0,
-      fix := (← parseDigs ((arr? j "fix").getD #[])),
-      sci := (← parseDigs ((arr? j "sci").getD #[])) }
+    let base := Num.ofBits (← hexNat? (← str? j "bits"))
+    let fixL ← parseTexts ((arr? j "fix").getD #[])
+    let sciL ← parseTexts ((arr? j "sci").getD #[])
+    let n : Num := { base with
+      rfix := fun p => (fixL.lookup p).getD [missing],
+      rsci := fun p => (sciL.lookup p).getD [missing] }
     some (.num n (cps (← arr? j "disp")))
   | "str" => some (.str (cps (← arr? j "s")))
   | "other" => some (.other (cps (← arr? j "disp")))
   | "obj" =>
     let fs ← (← arr? j "f").toList.mapM (fun e => do
       match e with
-      | .arr #[.arr k, v] => pure (cps k, ← parseVal v)
+      | .arr #[.arr k, v] => pure (cps k, ← parseVal missing v)
       | _ => none)
     some (.obj fs (cps (← arr? j "disp")))
   | _ => none
@@ -42,9 +51,10 @@ def showR : R (List Char) → Json
   | .ok s => obj [("ok", ofNats (s.map Char.toNat))]
   | .error e => obj [("err", .str e.name)]
 
-def isOracleErr : R (List Char) → Bool
-  | .error .oracle => true
-  | _ => false
+def sameR : R (List Char) → R (List Char) → Bool
+  | .ok a, .ok b => a == b
+  | .error a, .error b => a == b
+  | _, _ => false
 
 /-! the derived `Debug` text of `Vec<Element>` (for texts without characters that Debug escapes) -/
 def dbgBool (b : Bool) : String := if b then "true" else "false"
@@ -65,25 +75,41 @@ def dbgElem : Elem → String
 def dbgElems (es : List Elem) : String := "[" ++ ", ".intercalate (es.map dbgElem) ++ "]"
 
 /-- `fmt` : {"fmt":[code points],"mode":"arr"|"single","vals":[V…]} → model / spec result.
+    `fmt.digits` : {"bits":hex16,"p":n} → the exact correctly rounded texts Rust's float formatting
+    is assumed to return for that double and precision.
     `fmt.parse` : {"fmt":[…]} → only the parse outcome (number of elements or error class). -/
 def handle (op : String) (j : Json) : Option Json :=
   match op with
   | "fmt" =>
-    match (do
+    let build (missing : Char) : Option (List Char × Args) := do
       let f ← arr? j "fmt"
       let mode ← str? j "mode"
-      let vs ← (← arr? j "vals").toList.mapM parseVal
+      let vs ← (← arr? j "vals").toList.mapM (parseVal missing)
       let args ← (match mode, vs with
         | "arr", vs => some (Args.arr vs)
         | "single", [v] => some (Args.single v)
         | _, _ => none)
-      pure (cps f, args)) with
-    | none => some (bad "fmt: parse")
-    | some (f, args) =>
+      pure (cps f, args)
+    match build '?', build '!' with
+    | some (f, args), some (_, args') =>
       let m := Format.stdFormat f args
       let s := FormatSpec.stdFormat f args
-      if isOracleErr m || isOracleErr s then some (bad "fmt: digit oracle entry missing")
+      if !sameR m (Format.stdFormat f args') then
+        some (bad "fmt: formatter answer (fix/sci text) for a needed precision missing")
       else some (obj [("model", showR m), ("spec", showR s)])
+    | _, _ => some (bad "fmt: parse")
+  | "fmt.digits" =>
+    -- validation of the assumption `RustFmtExact`: the exact reference texts for (bits, precision)
+    match (do
+      let b ← hexNat? (← str? j "bits")
+      let p ← nat? j "p"
+      pure (b, p)) with
+    | none => some (bad "fmt.digits: parse")
+    | some (b, p) =>
+      let mag := (Num.ofBits b).mag
+      some (obj [("spec", obj [("fix", .str (String.ofList (FormatSpec.rustFixed mag p))),
+                               ("sci", .str (String.ofList (FormatSpec.rustSci mag p))),
+                               ("neg", toJson (Num.ofBits b).neg)])])
   | "fmt.parse" =>
     match arr? j "fmt" with
     | none => some (bad "fmt.parse: parse")
